@@ -312,7 +312,7 @@ def run_rest(case):
         return "session-results after stepping to the stop time cover %r, expected %r" % (sorted(float(k) for k in sr), gridS)
     return None
 
-case = (0.0, 4.0, 1.0, 2.0, 3.0, 2, 7.0)
+case = (1.0, 3.0, 0.5, 1.0, 0.5, 1, 4.0)
 bad = run_two_managers(case)
 print("FAIL: " + bad if bad else "PASS")
 sys.stdout.flush()
